@@ -632,4 +632,29 @@ theorem const_eager_subs_inputs (c : ConstT) (argIns : Inputs) (valueIns : Name 
     (n ∈ names c.consts ∧ valueIns n = none) ∨ ∃ k vi, k ∈ names c.consts ∧ valueIns k = some vi ∧ n ∈ names vi :=
   const_subs_sub c.consts argIns valueIns n h
 
+
+/-! ### Gaussian.eager_subs: the branch decision drops no pair -/
+
+/-- No pair is dropped by a call of `Gaussian.eager_subs`: every pair whose key is an input is handled by the branch
+    that fires or handed over, unchanged, to `Subs(result, remaining)` — unless the renaming is refused. -/
+theorem gStage_partition (inputs : List Name) (σ : List (Name × GKind)) (p : Name × GKind) (hp : p ∈ σ)
+    (hin : inputs.contains p.1 = true) :
+    (gStage inputs σ).1 = "var-conflict" ∨ p.1 ∈ (gStage inputs σ).2.1 ∨ p ∈ (gStage inputs σ).2.2.2 := by
+  have hmem : p ∈ σ.filter (fun q => inputs.contains q.1) := List.mem_filter.mpr ⟨hp, hin⟩
+  unfold gStage
+  simp only []
+  obtain ⟨k, kind⟩ := p
+  split
+  · rename_i he; simp_all; exact he k kind hp hin
+  · split
+    · split
+      · exact Or.inl rfl
+      · cases kind <;> simp_all [List.mem_filter, List.mem_map] <;> grind
+    · split
+      · cases kind <;> simp_all [List.mem_filter, List.mem_map] <;> grind
+      · split
+        · cases kind <;> simp_all [List.mem_filter, List.mem_map] <;> grind
+        · split
+          · cases kind <;> simp_all [List.mem_filter, List.mem_map] <;> grind
+          · cases kind <;> simp_all [List.mem_filter, List.mem_map] <;> grind
 end FV.Props.C04
